@@ -107,7 +107,9 @@ class C05(Prop):
                         base = X.render(cur, lp, rng)
                     else:
                         base = X.render(cur, rng.choice(nodes)[0], rng) if nodes else ""
-                        sfx = rng.choice(["/nokey", "[99]", "/nokey/x", "[-99]"])
+                        # ... and paths that are missing because a step is not even well-formed: a non-numeric or
+                        # fractional index, an empty index, a blank step (the resolver reports those with other exception classes)
+                        sfx = rng.choice(["/nokey", "[99]", "/nokey/x", "[-99]", "[one]", "[1.5]", "[]", "/ /c", "[x]/y"])
                     if rng.random() < 0.5:
                         ops.append(["pop", base + sfx, rng.random() < 0.3])
                         metas.append({"missing": True})
